@@ -60,9 +60,14 @@ package scheduler
 // the goroutine that invokes one entry
 //@ fn (*Scheduler).run$2(e)
 //@   props C09
-//@   trusted
+//@   modifies *
 //@   spawn modifies ghost invoked
 //@   spawn ensures invoked == upd(old(invoked), e, true)
+//@   expect calls (*entry).Invoke >= 1
+//@   assert before (*entry).Invoke [C09 the_spawned_entry_is_the_one_invoked] arg0 == e
+//@   ensures [C09 a_spawned_entry_is_invoked_exactly_once] job.start + job.stop + job.restart <= old(job.start + job.stop + job.restart) + 1 &&
+//@        (e.Job != nil && (e.EntryType == entryTypeStart || e.EntryType == entryTypeStop || e.EntryType == entryTypeRestart) ==>
+//@           job.start + job.stop + job.restart == old(job.start + job.stop + job.restart) + 1)
 
 //@ ghost obs.read_err error
 //@ ghost obs.read_entries []*entry
